@@ -70,11 +70,11 @@ pub fn scopes() -> Vec<Scope> {
         approver: "approver1",
         exec: "exec1",
     });
-    // 1: restricted markers for the base and the quote denomination, a plain convertible one,
+    // 1: a restricted marker for the base denomination only (quote and convertible are plain coins),
     //    required attributes on the ask side (seller2 lacks them)
     let mut m1 = BTreeMap::new();
     m1.insert(s("base"), 2u8);
-    m1.insert(s("quote1"), 2u8);
+    m1.insert(s("quote1"), 1u8);
     m1.insert(s("conv1"), 1u8);
     let mut a1 = BTreeMap::new();
     a1.insert(s("seller1"), Some(vec![s("kyc")]));
@@ -95,12 +95,13 @@ pub fn scopes() -> Vec<Scope> {
         approver: "approver1",
         exec: "exec1",
     });
-    // 2: overlapping roles (the approver sells, the executor buys), the base denomination listed
-    //    among the convertible ones, the convertible denomination restricted
-    let mut i2 = base_inst(2, 100, Some(("0.5", "exec1")), None);
+    // 2: overlapping roles (the approver sells and is the ask-fee account, the executor buys), the
+    //    base denomination listed among the convertible ones, convertible and quote restricted
+    let mut i2 = base_inst(2, 100, Some(("0.5", "approver1")), None);
     i2.convertible_base_denoms = vec![s("conv1"), s("base")];
     let mut m2 = BTreeMap::new();
     m2.insert(s("conv1"), 2u8);
+    m2.insert(s("quote1"), 2u8);
     v.push(Scope {
         name: "overlap",
         inst: i2,
@@ -268,6 +269,13 @@ pub fn alphabet(sc: &Scope, asks: &[(String, AskOrderV1)], bids: &[(String, BidO
         v.push(ex(sc.exec, vec![], ExecuteMsg::ExpireBid { id: k.to_uppercase() }));
         v.push(ex(sc.exec, vec![], ExecuteMsg::RejectBid { id: plain, size: Some(Uint128::new(inc)) }));
     }
+    // an id used on both sides: the owner of the order on the other side tries to cancel this one
+    for (k, a) in asks {
+        if let Some((_, b)) = bids.iter().find(|(bk, _)| bk == k) {
+            v.push(ex(b.owner.as_str(), vec![], ExecuteMsg::CancelAsk { id: k.clone() }));
+            v.push(ex(a.owner.as_str(), vec![], ExecuteMsg::CancelBid { id: k.clone() }));
+        }
+    }
     // configuration changes
     let modify = |ap: Option<Vec<&str>>, exs: Option<Vec<&str>>, ar: Option<&str>, aa: Option<&str>, br: Option<&str>, ba: Option<&str>, at: Option<Vec<&str>>, bt: Option<Vec<&str>>| ExecuteMsg::ModifyContract {
         approvers: ap.map(|l| l.into_iter().map(s).collect()),
@@ -303,6 +311,10 @@ pub fn alphabet(sc: &Scope, asks: &[(String, AskOrderV1)], bids: &[(String, BidO
     v.push(ex(sc.exec, vec![], modify(None, None, None, None, None, None, None, Some(vec!["accred"]))));
     v.push(ex("mallory", vec![], modify(None, Some(vec!["mallory"]), None, None, None, None, None, None)));
     v.push(ex(sc.exec, vec![coin(1, "quote1")], modify(None, None, None, None, None, None, None, None)));
+    v.push(ex(sc.exec, vec![], modify(None, None, None, None, None, None, None, None)));
+    // each side's rate set to the other side's current rate
+    v.push(ex(sc.exec, vec![], modify(None, None, cur_bid.as_deref().or(Some("0.1")), Some("askfee1"), None, None, None, None)));
+    v.push(ex(sc.exec, vec![], modify(None, None, None, None, cur_ask.as_deref().or(Some("0.05")), Some("bidfee1"), None, None)));
     v
 }
 
@@ -553,6 +565,24 @@ pub fn mig_grid() -> Vec<History> {
             },
         )
     };
+    let v2plain = |k: &str| {
+        (
+            k.to_string(),
+            BidOrderV2 {
+                base: coin(30, "base"),
+                events: vec![
+                    ev(Action::Fill { base: coin(10, "base"), fee: None, price: "2.5".into(), quote: coin(25, "quote1") }),
+                    ev(Action::Refund { fee: None, quote: coin(5, "quote1") }),
+                    ev(Action::Reject { base: coin(10, "base"), fee: None, quote: coin(30, "quote1") }),
+                ],
+                fee: None,
+                id: k.to_string(),
+                owner: Addr::unchecked("buyer1"),
+                price: "3".into(),
+                quote: coin(90, "quote1"),
+            },
+        )
+    };
     let k_lo = "0b000000-0000-4000-8000-000000000001";
     let k_mid = "1a000000-0000-4000-8000-000000000002";
     let k_hi = "9f000000-0000-4000-8000-000000000003";
@@ -562,8 +592,8 @@ pub fn mig_grid() -> Vec<History> {
         (vec![], vec![], vec![]),
         (vec![ask.clone()], vec![], vec![]),
         (vec![ask.clone()], vec![v3(k_mid)], vec![]),
-        (vec![ask.clone()], vec![], vec![v2(k_lo), v2(k_hi)]),
-        (vec![], vec![v3(k_mid)], vec![v2(k_lo), v2(k_hi)]),
+        (vec![ask.clone()], vec![], vec![v2(k_lo), v2plain(k_hi)]),
+        (vec![], vec![v3(k_mid)], vec![v2plain(k_lo), v2(k_hi)]),
         (vec![ask.clone()], vec![v3(k_lo)], vec![v2(k_hi)]),
         (vec![], vec![], vec![v2(k_legacy)]),
     ];
